@@ -88,12 +88,85 @@ def gen_oil():
 def gen_reservoir():
     m = P.Module(os.path.join(SRC, "flow", "reservoir.py"), "Gen_reservoir")
     _fn(m, "_build_matrix", emit_name="build_matrix", kinds={"kt_h2": "list"})
+    m.aliases = {"_build_matrix": "build_matrix"}
     # fvf_scale of both classes and the flux stencil of recovery_factor
     tr = P.Tr(m, m.method("IdealReservoir", "fvf_scale"), emit_name="fvf_scale_ideal",
               self_fields=["pressure_fracface", "pressure_initial"])
     tr.translate()
     tr = P.Tr(m, m.method("SinglePhaseReservoir", "fvf_scale"), emit_name="fvf_scale_single", self_fields=[])
     tr.translate()
+    # ---- the body of the time-stepping loops, up to (excluding) the linear solve: the step's matrix and right-hand side
+    import ast
+    import copy
+
+    class Rewrite(ast.NodeTransformer):
+        """time[i+1] -> t_next, time[i] -> t_cur, pseudopressure[i] -> prev, m_f[i] -> mf_i,
+        self.alpha_scaled -> alpha_scaled_fn, self.nx -> nx (the loop body becomes a function of these)"""
+
+        def visit_Subscript(self, node):
+            self.generic_visit(node)
+            if isinstance(node.value, ast.Name) and node.value.id in ("time", "pseudopressure", "m_f"):
+                idx = ast.unparse(node.slice).replace(" ", "")
+                name = {("time", "i+1"): "t_next", ("time", "i"): "t_cur", ("pseudopressure", "i"): "prev", ("pseudopressure", "i+1"): "nxt", ("m_f", "i"): "mf_i"}.get((node.value.id, idx))
+                if name is None:
+                    raise P.Untranslatable(f"line {node.lineno}: unexpected index {node.value.id}[{idx}] in the time loop")
+                return ast.copy_location(ast.Name(id=name, ctx=node.ctx), node)
+            return node
+
+        def visit_Attribute(self, node):
+            self.generic_visit(node)
+            if isinstance(node.value, ast.Name) and node.value.id == "self" and node.attr in ("alpha_scaled", "nx"):
+                return ast.copy_location(ast.Name(id={"alpha_scaled": "alpha_scaled_fn", "nx": "nx"}[node.attr], ctx=ast.Load()), node)
+            return node
+
+    def loop_body(cls):
+        f = m.method(cls, "simulate")
+        loops = [n for n in f.body if isinstance(n, ast.For)]
+        if len(loops) != 1:
+            raise P.Untranslatable(f"{cls}.simulate: expected exactly one time loop")
+        pre = [n for n in f.body if isinstance(n, ast.Assign) and isinstance(n.targets[0], ast.Name) and n.targets[0].id == "dx_squared"]
+        if cls == "SinglePhaseReservoir" and len(pre) != 1:
+            raise P.Untranslatable("SinglePhaseReservoir.simulate: dx_squared assignment not found")
+        body = [Rewrite().visit(copy.deepcopy(n)) for n in ((pre if cls == "SinglePhaseReservoir" else []) + loops[0].body)]
+        return body
+
+    def is_solve(st):
+        return isinstance(st, ast.Assign) and "bicgstab" in ast.unparse(st.value)
+    for cls, name, args, kinds in (
+            ("SinglePhaseReservoir", "single_step_system", ["alpha_scaled_fn", "nx", "m_i", "mf_i", "t_cur", "t_next", "prev"],
+             {"alpha_scaled_fn": "fun", "prev": "list"}),
+            ("IdealReservoir", "ideal_step_system", ["dx_squared", "t_cur", "t_next", "prev"], {"prev": "list"})):
+        fn = ast.FunctionDef(name=name, args=ast.arguments(posonlyargs=[], args=[ast.arg(arg=a) for a in args], kwonlyargs=[], kw_defaults=[], defaults=[]),
+                             body=loop_body(cls), decorator_list=[], lineno=1, col_offset=0)
+        ast.fix_missing_locations(fn)
+        if cls == "IdealReservoir":
+            # IdealReservoir.alpha_scaled is np.ones_like: translate the method and call it
+            P.Tr(m, m.method("IdealReservoir", "alpha_scaled"), emit_name="ideal_alpha_scaled", self_fields=[], kinds={"pseudopressure": "list"}).translate()
+            class R2(ast.NodeTransformer):
+                def visit_Name(self, node):
+                    return ast.copy_location(ast.Name(id="ideal_alpha_scaled", ctx=node.ctx), node) if node.id == "alpha_scaled_fn" else node
+            fn = R2().visit(fn)
+            m.defined["ideal_alpha_scaled"]["ret"] = "list"
+        m.defined["build_matrix"]["ret"] = 3
+        P.Tr(m, fn, emit_name=name, kinds=kinds, cut_before=is_solve, ret_names=["a_matrix", "b"]).translate()
+    # recovery_factor: the flux stencil of one time level (pp[:, k] -> u_k)
+    rf = m.method("IdealReservoir", "recovery_factor")
+    rate = [n for n in ast.walk(rf) if isinstance(n, ast.Assign) and isinstance(n.targets[0], ast.Name) and n.targets[0].id == "rate"]
+    if len(rate) != 1:
+        raise P.Untranslatable("recovery_factor: rate assignment not found")
+
+    class Cols(ast.NodeTransformer):
+        def visit_Subscript(self, node):
+            txt = ast.unparse(node).replace(" ", "")
+            mm = __import__("re").fullmatch(r"pp\[:,(\d)\]", txt)
+            if mm:
+                return ast.copy_location(ast.Name(id=f"u{mm.group(1)}", ctx=ast.Load()), node)
+            raise P.Untranslatable(f"recovery_factor: unexpected subscript {txt}")
+    expr = Cols().visit(copy.deepcopy(rate[0].value))
+    fn = ast.FunctionDef(name="flux_rate_row", args=ast.arguments(posonlyargs=[], args=[ast.arg(arg=a) for a in ("u0", "u1", "u2", "h_inv")], kwonlyargs=[], kw_defaults=[], defaults=[]),
+                         body=[ast.Return(value=expr)], decorator_list=[], lineno=1, col_offset=0)
+    ast.fix_missing_locations(fn)
+    P.Tr(m, fn, emit_name="flux_rate_row").translate()
     return m
 
 
